@@ -10,8 +10,9 @@
 
 #include <vector>
 
-enum { OP_MODIFY = 0, OP_MODIFY_THROW1, OP_MODIFY_THROW2, OP_READ };
-static const char* const OPN[] = {"modify", "modify_throw_first", "modify_throw_second", "read"};
+enum { OP_MODIFY = 0, OP_MODIFY_THROW1, OP_MODIFY_THROW2, OP_READ, OP_MODIFY_RVALUE_FUNCTOR };
+static const char* const OPN[] = {"modify", "modify_throw_first", "modify_throw_second", "read",
+                                  "modify_rvalue_functor"};
 
 namespace {
 using Vec = std::vector<long>;
@@ -38,6 +39,24 @@ struct Push {
         x.push_back(v);
         gsim::yield();
         if (k == throw_at) throw gsim::injected{80 + k, 0};
+    }
+};
+
+/// a functor with ref-qualified call operators: called as an lvalue it copies its
+/// payload into the object, called as an rvalue it gives the payload away.  modify()
+/// applies its functor twice, so it must call it as an lvalue both times.
+struct Append {
+    Vec payload;
+    void operator()(Vec& x) &
+    {
+        x.insert(x.end(), payload.begin(), payload.end());
+        gsim::yield();
+    }
+    void operator()(Vec& x) &&
+    {
+        Vec mine = std::move(payload);  // consumed
+        x.insert(x.end(), mine.begin(), mine.end());
+        gsim::yield();
     }
 };
 
@@ -76,6 +95,18 @@ void body(int t)
             continue;
         }
         long v = 100 * (t + 1) + i + 1;
+        if (op.code == OP_MODIFY_RVALUE_FUNCTOR) {
+            {
+                gsim::Oracle o;
+                Vec next = S->states.back();
+                next.push_back(v);
+                S->states.push_back(next);
+            }
+            S->lr->modify(Append{Vec{v}});  // a temporary: an rvalue functor
+            gsim::Oracle o;
+            S->completed = S->states.size() - 1;
+            continue;
+        }
         int throw_at = op.code == OP_MODIFY ? 0 : op.code == OP_MODIFY_THROW1 ? 1 : 2;
         int apps = 0;
         {
@@ -120,8 +151,10 @@ void run()
         gsim::prog_reset(1 + nr);
         int k = 1 + gsim::gen_int(4);
         for (int i = 0; i < k; i++) {
-            int c = gsim::gen_int(6);
-            gsim::prog_add(0, {c < 2 ? OP_MODIFY : c < 4 ? OP_MODIFY_THROW2 : OP_MODIFY_THROW1, 0, 0, 0});
+            int c = gsim::gen_int(8);
+            gsim::prog_add(0, {c < 2 ? OP_MODIFY : c < 4 ? OP_MODIFY_THROW2 : c < 6 ? OP_MODIFY_THROW1 :
+                                                                              OP_MODIFY_RVALUE_FUNCTOR,
+                               0, 0, 0});
         }
         for (int t = 1; t <= nr; t++) {
             int r = 1 + gsim::gen_int(3);
